@@ -441,6 +441,10 @@ def run_ops(ctx, raw_enc, ops):
                 arg = min(arg, sum(len(l) for l in lv))
             it = {"of_length": av().of_length, "up_to": av().up_to_length, "first": av().first}[what](arg)
             iters.append([what, arg, iter(it), [], len(av().cache)])
+        elif kind == "iter_drain" and iters:
+            ent = iters[op[1] % len(iters)]
+            ent[3].extend(tuple(p) for p in ent[2])
+            ctx.count("op.iter_drained_midway")
         elif kind == "iter_adv" and iters:
             ent = iters[op[1] % len(iters)]
             for _ in range(op[2]):
@@ -466,6 +470,16 @@ def run_ops(ctx, raw_enc, ops):
             if len(set(items)) != len(items) or any(len(g) <= N and g not in lv[len(g)] for g in items) or \
                     [len(g) for g in items] != sorted(len(g) for g in items):
                 report(f"iterator first({arg}) resumed later is inconsistent", known)
+    # closing round: whatever the iterators did when they were drained, the class must still answer correctly
+    for n in range(N + 1):
+        ctx.ev()
+        got = av().count(n)
+        if got != len(lv[n]):
+            report(f"closing round: count({n}) = {got}, avoiders of raw basis: {len(lv[n])}", known)
+    t = tuple(ctx.rng.sample(range(N), N))
+    ctx.ev()
+    if (Perm(t) in av()) is not avmodel.member(raw, t):
+        report(f"closing round: {t} in class disagrees with the definition", known)
     ctx.count("histories.classical" if avmodel.is_classical(raw) else "histories.mesh")
     if infinite and (jumped or resumed):
         ctx.nt((avmodel.key_of(raw), repr(ops)))
@@ -513,8 +527,8 @@ def rand_mesh(rng, kmax=3):
 def rand_ops(rng, raw_plain, N, nops):
     ops = []
     other_pool = [[[0, 1, 2]], [[0, 2, 1]], [[1, 0]], [[0, 1]], [[2, 1, 0], [0, 1, 2, 3]], [[1, 3, 0, 2], [2, 0, 3, 1]], [[0]]]
-    kinds = ["count", "of_length", "up_to", "first", "enum", "in", "in_other", "fault", "clear", "rehandle", "old_handle", "other", "iter_open", "iter_adv"]
-    weights = [16, 14, 6, 8, 5, 11, 2, 6, 5, 4, 2, 5, 11, 11]
+    kinds = ["count", "of_length", "up_to", "first", "enum", "in", "in_other", "fault", "clear", "rehandle", "old_handle", "other", "iter_open", "iter_adv", "iter_drain"]
+    weights = [16, 14, 6, 8, 5, 11, 2, 6, 5, 4, 2, 5, 12, 11, 4]
     for kind in rng.choices(kinds, weights, k=nops):
         n = rng.choice([0, 1, 2, N, N - 1, rng.randint(0, N)])
         if kind in ("count", "of_length"):
@@ -546,6 +560,9 @@ def rand_ops(rng, raw_plain, N, nops):
             what = rng.choice(["of_length", "up_to", "first"])
             arg = rng.randint(0, N) if what == "of_length" else rng.randint(0, N - 1) if what == "up_to" else rng.choice([3, 10, 50, 200])
             ops.append(["iter_open", what, arg])
+        elif kind == "iter_drain":
+            ops.append(["iter_drain", rng.randrange(8)])
+            ops.append(["count", rng.choice([N, N - 1])])
         else:
             ops.append(["iter_adv", rng.randrange(8), rng.choice([1, 2, 5, 30])])
     return ops
